@@ -1,4 +1,5 @@
 import HdVerif.Proofs.Codec
+import HdVerif.Proofs.CodecTie
 /-! # C07  Lossless frame encoding round-trips and rejects what it cannot encode
 
 Property theorems only (helper lemmas: `Proofs/Codec.lean`).  The accept / refuse / dispatch logic of
@@ -341,6 +342,46 @@ theorem counterexample_ybr_full (c : CodecImpl) (conv : List Int → List Int) (
   rw [this]
   intro h
   exact hconv (Except.ok.inj h)
+
+/-! ## the hand-written arms use the expressions of the current source (bridges, `Proofs/CodecTie.lean`, T13n) -/
+
+/-- **Tie, native cells**: on route 2 the model writes `array.flatten(ORDER).astype(array.dtype.newbyteorder(B)).tobytes()` with the
+flatten order and byte order REGENERATED from `encode_frame` (`Gen.cellsFlattenOrder`, `Gen.cellsByteOrder`): the frame's values in
+C order, every cell in little-endian two's complement. -/
+theorem tie_native_cells (c : CodecImpl) (p : Params) (x : Frame) (v : Int × Int × Int × Int × Int × Int × Int)
+    (h : encodeRouteFull p x = .ok v) (h2 : v.1 = 2) :
+    encodeFrame c p x = .ok (x.data.map (fun v => leBytes x.dtype.itemsize (toUnsigned (8 * x.dtype.itemsize) v))).flatten ∧
+    (flattenIn cellsFlattenOrder x).bind (fun vs => vs.mapM (cellBytesIn cellsByteOrder x.dtype.itemsize)) =
+      some (x.data.map (fun v => leBytes x.dtype.itemsize (toUnsigned (8 * x.dtype.itemsize) v))) :=
+  ⟨encodeFrame_cells_tie c p x v h h2, (encodeCells_tie x).1⟩
+
+/-- **Tie, native bits**: on route 1 the model packs `array.flatten(ORDER)` with the regenerated order (`Gen.packBitsFlattenOrder`). -/
+theorem tie_native_bits (c : CodecImpl) (p : Params) (x : Frame) (v : Int × Int × Int × Int × Int × Int × Int)
+    (h : encodeRouteFull p x = .ok v) (h1 : v.1 = 1) :
+    flattenIn packBitsFlattenOrder x = some x.data ∧ encodeFrame c p x = packBits x.data :=
+  packBits_tie c p x v h h1
+
+/-- **Tie, 1-bit decode**: the bits the model's route 1 keeps are given the regenerated shape (`Gen.decodeOneBitShape`,
+the arguments of `pixel_array.reshape(..)` in `decode_frame`): `(rows, columns[, samples])`, `rows*columns*samples` bits. -/
+theorem tie_one_bit_decode_shape (rows cols samples : Nat) (hs : 1 ≤ samples) :
+    (decodeOneBitShape rows cols samples).prod = rows * cols * samples ∧
+    decodeOneBitShape rows cols samples = (if samples > 1 then [rows, cols, samples] else [rows, cols]) :=
+  decodeOneBitShape_tie rows cols samples hs
+
+/-- **Tie, transfer-syntax sets**: the model's `nativeSyntaxes` / `isEncapsulated` / `losslessSyntaxes` agree with the sets
+`uncompressed_transfer_syntaxes`, `compressed_transfer_syntaxes` regenerated from `encode_frame` (tables of T13a). -/
+theorem tie_syntax_tables :
+    (∀ ts, ts ∈ nativeSyntaxes ↔ ts ∈ encodeFrameUncompressedTransferSyntaxes) ∧
+    (∀ ts ∈ encodeFrameUncompressedTransferSyntaxes, isEncapsulated ts = false) ∧
+    (∀ ts ∈ encodeFrameCompressedTransferSyntaxes, isEncapsulated ts = true) ∧
+    (∀ ts ∈ losslessSyntaxes, ts ∈ encodeFrameUncompressedTransferSyntaxes ∨ ts ∈ encodeFrameCompressedTransferSyntaxes) ∧
+    (∀ ts, ts ∈ encodeFrameCompressedTransferSyntaxes ↔
+      ts = jpegBaseline ∨ ts = jpegLs ∨ ts = jpegLsNear ∨ ts = j2kLossless ∨ ts = j2k ∨ ts = rle) :=
+  syntax_tables_tie
+
+/-- a 2x3 frame in Fortran order differs from its C order: the tie is not vacuous -/
+example : flattenIn "F" ⟨2, 3, none, .u8, [1, 2, 3, 4, 5, 6]⟩ = some [1, 4, 2, 5, 3, 6] := by decide
+example : cellBytesIn ">" 2 258 = some [1, 2] ∧ cellBytesIn "<" 2 258 = some [2, 1] := by decide
 
 /-! ## non-vacuity: concrete frames meeting the hypotheses -/
 
